@@ -11,7 +11,7 @@ from ..report import Ctx
 from ..values import Frag, SNew, SObj, SStr, short
 from .c01 import attr_loop_obligations
 from .c02 import emission_obligations
-from .c03 import merge_obligations
+from .c03 import helper_obligations, merge_obligations
 
 CORE = "htmltools._core"
 
@@ -83,6 +83,38 @@ def html_algebra(ctx: Ctx) -> None:
               "HTML += x is no longer HTML.__add__")
     init = prog.find_method(html_ci, "__init__")
     ctx.require(init is not None, "HTML.__init__ vanished")
+    # pieces of an HTML() are HTML(): UserString.__getitem__ returns self.__class__(...), and iteration (Sequence mixin) uses it.
+    # TagList + HTML(...), .extend(HTML(...)) and flatten() splat a non-str iterable into its elements, so an __iter__ that
+    # hands out the characters of the underlying str turns trusted markup into plain text that gets escaped.
+    import ast as _ast
+    overridden = False
+    for meth in ("__iter__", "__getitem__"):
+        mm = prog.find_method(html_ci, meth)
+        if mm is None or not mm[0].module.name.startswith("htmltools"):
+            continue
+        fn = mm[1]
+        overridden = True
+        sn = fn.args.args[0].arg
+        rets = [n.value for n in _ast.walk(fn) if isinstance(n, _ast.Return) and n.value is not None]
+        plain = []
+        for r in rets:
+            inner = r
+            if isinstance(r, _ast.Call) and isinstance(r.func, _ast.Name) and r.func.id in ("iter", "reversed") and len(r.args) == 1:
+                inner = r.args[0]
+            if isinstance(inner, _ast.Subscript):
+                inner = inner.value
+            txt = _ast.unparse(inner)
+            if txt in (f"{sn}.data", f"str({sn})", f"{sn}.as_string()", f"{sn}.data.__iter__()"):
+                plain.append(_ast.unparse(r))
+        if plain:
+            ctx.fail("C04.mro", f"{CORE}:HTML.{meth}", f"return {plain[0]}",
+                     f"HTML.{meth} hands out pieces of the underlying str ({plain[0]}): TagList + HTML(x), .extend(HTML(x)) and every other "
+                     f"place that splats a non-str iterable store plain characters, which are then escaped - trusted markup is no longer emitted unchanged",
+                     witness="TagList('a') + HTML('<b>x</b>')")
+        else:
+            ctx.require(False, f"HTML.{meth} is overridden in a way the model of HTML pieces does not cover")
+    if not overridden:
+        ctx.ok("C04.mro", "pieces of an HTML() obtained by iteration / indexing are HTML() (UserString.__getitem__ -> self.__class__)")
 
 
 def exactly_once(ctx: Ctx, m: Any) -> None:
@@ -123,5 +155,6 @@ def check(ctx: Ctx) -> None:
               sites[0]["text"] if sites else "", "the no-escape set is modified at run time")
     attr_loop_obligations(ctx, m, "C04", want_value=True)
     merge_obligations(ctx, "C04", only="trusted")
+    helper_obligations(ctx, "C04")
     html_algebra(ctx)
     exactly_once(ctx, m)
